@@ -26,15 +26,28 @@ def run(R):
     with R.guard('C14.R1'):
         pr = tonic.body(re.compile(r'reconnect::Reconnect<M, Target> as tower_service::Service<Request>>::poll_ready$'))
         R.saw(pr)
+        # the fields of Reconnect by type and role (private names may change): the State field, the Option<BoxError> slot, the bool
+        # that is assigned in poll_ready (has been connected) and the bool that is only set by the constructor (lazy)
+        radt_ = tonic.adt('reconnect::Reconnect')['variants'][0]['fields']
+        F_STATE = [f_['n'] for f_ in radt_ if f_['ty'].startswith('transport::channel::service::reconnect::State<')]
+        F_ERR = [f_['n'] for f_ in radt_ if f_['ty'].startswith('std::option::Option<') and 'Error' in f_['ty']]
+        bools_ = [f_['n'] for f_ in radt_ if f_['ty'] == 'bool']
+        assigned_ = {mirlib.place_fields(st_['p'])[-1] for bb_, i_, st_ in mirlib.assignments(pr, lambda st_: st_['p']['l'] == 1 and mirlib.place_fields(st_['p'])[-1:] and mirlib.place_fields(st_['p'])[-1] in bools_)}
+        if len(F_STATE) != 1 or len(F_ERR) != 1 or len(bools_) != 2 or len(assigned_) != 1:
+            raise CheckError('UNRECOGNISED: Reconnect fields by role: state %r, error slot %r, bools %r (assigned in poll_ready: %r)' % (F_STATE, F_ERR, bools_, sorted(assigned_)))
+        F_STATE, F_ERR = F_STATE[0], F_ERR[0]
+        F_CONN = sorted(assigned_)[0]
+        F_LAZY = [b_ for b_ in bools_ if b_ != F_CONN][0]
         sadt = tonic.adt('reconnect::State')
         vname = {v['discr']: v['name'] for v in sadt['variants']}
         state_locals = [l for l in range(len(pr.local_tys)) if pr.tystr(pr.local_tys[l]).startswith('transport::channel::service::reconnect::State<') and pr.name_of(l) is not None]
-        if len(state_locals) != 1:
-            raise CheckError('UNRECOGNISED: expected one named local of type State in poll_ready, found %r' % [pr.name_of(l) for l in state_locals])
-        SL = state_locals[0]
+        if len(state_locals) > 1:
+            raise CheckError('UNRECOGNISED: expected at most one named local of type State in poll_ready, found %r' % [pr.name_of(l) for l in state_locals])
+        # the new state may be staged in a local (`state = State::X; ... self.state = state`) or assigned to self.state directly
+        SL = state_locals[0] if state_locals else -1
 
         def is_self_state(p):
-            return mirlib.place_fields(p) == ['state'] and p['l'] == 1
+            return mirlib.place_fields(p) == [F_STATE] and p['l'] == 1
 
         def on_stmt(body, bb, i, stmt, st):
             if 'p' not in stmt:
@@ -58,7 +71,7 @@ def run(R):
                 v = mirlib.rvalue_variant(body, rv)
                 st['ls'] = frozenset([v[1]]) if v and v[0].endswith('reconnect::State') else frozenset(['?'])
                 return st
-            if p['l'] == 1 and mirlib.place_fields(p) == ['error']:
+            if p['l'] == 1 and mirlib.place_fields(p) == [F_ERR]:
                 st = dict(st)
                 t = strip_refs(body._origin_def(('stmt', bb, i, rv), 0, set()))
                 st['err'] = frozenset(['Some']) if (t[0] == 'agg' and t[1].get('variant') == 'Some') else (frozenset(['None']) if (t[0] == 'agg' and t[1].get('variant') == 'None') else frozenset(['Some', 'None']))
@@ -86,7 +99,7 @@ def run(R):
                 st = dict(st)
                 st['ret'] = frozenset([('err' if t.get('name') == 'from_residual' else 'other', bb)])
                 return st
-            if t.get('name') == 'take' and mentions_field(body.origin(t['args'][0]), 'error'):
+            if (t.get('name') == 'take' or (t.get('name') in ('take', 'replace') and 'mem::' in (t.get('fn') or ''))) and mentions_field(body.origin(t['args'][0]), F_ERR):
                 st = dict(st)
                 st['err'] = frozenset(['None'])
                 return st
@@ -96,7 +109,7 @@ def run(R):
             o = body.origin(body.term(bb)['on'])
             if o[0] == 'discr':
                 base = strip_refs(o[1])
-                if base[0] == 'field' and base[2] == 'state' and strip_refs(base[1])[0] == 'arg':
+                if base[0] == 'field' and base[2] == F_STATE and strip_refs(base[1])[0] == 'arg':
                     cur = st['ss']
                     names = set(vname.get(v) for v in vals if v != 'else')
                     if vals == ['else']:
@@ -117,7 +130,7 @@ def run(R):
                             st = dict(st)
                             st['fut'] = frozenset(['done'])
                             return st
-            if o[0] == 'discr' and o[2] and strip_refs(o[1])[0] == 'field' and strip_refs(o[1])[2] == 'error' and strip_refs(strip_refs(o[1])[1])[0] == 'arg':
+            if o[0] == 'discr' and o[2] and strip_refs(o[1])[0] == 'field' and strip_refs(o[1])[2] == F_ERR and strip_refs(strip_refs(o[1])[1])[0] == 'arg':
                 names_ = {v: n for v, n in o[2]}
                 cur = st['err']
                 if vals == ['else']:
@@ -130,7 +143,7 @@ def run(R):
                 st = dict(st)
                 st['err'] = frozenset(new)
                 return st
-            if is_call(strip_refs(o), name='is_some') and mentions_field(o, 'error'):
+            if is_call(strip_refs(o), name='is_some') and mentions_field(o, F_ERR):
                 cur = st['err']
                 new = cur & ({'None'} if vals == [0] else {'Some'})
                 if not new:
@@ -171,12 +184,12 @@ def run(R):
 
     with R.guard('C14.R3'):
         # has_been_connected monotone
-        hb = [(bb, i, st) for bb, i, st in mirlib.assignments(pr, lambda st: mirlib.place_fields(st['p']) == ['has_been_connected'])]
+        hb = [(bb, i, st) for bb, i, st in mirlib.assignments(pr, lambda st: mirlib.place_fields(st['p']) == [F_CONN])]
         R.floor('C14.R3', 'has_been_connected writes', len(hb), 1)
         for bb, i, st in hb:
             v = const_val(pr._origin_def(('stmt', bb, i, st['rv']), 0, set()))
             g = pr.edge_guards(bb)
-            in_connected = any(tm[0] == 'discr' and 'state' in show(tm) and vals == [[d for d, n in vname.items() if n == 'Connected'][0]] for s, vals, tm in g)
+            in_connected = any(tm[0] == 'discr' and mentions_field(tm, F_STATE) and vals == [[d for d, n in vname.items() if n == 'Connected'][0]] for s, vals, tm in g)
             R.check(v is True and in_connected, 'C14.R3', 'has_been_connected-monotone', site(pr, bb, i),
                     'has_been_connected := %r on the Connected arm: %r (clearing it makes a later failed reconnect of an eager channel return Err, which kills the buffer worker for good)' % (v, in_connected))
         # Err return on connect failure only when !(has_been_connected || is_lazy)
@@ -184,21 +197,21 @@ def run(R):
         R.check(len(errw) == 1, 'C14.R3', 'connect-error-return-site', site(pr), 'Ready(Err(e)) sites: %d' % len(errw))
         for bb in errw:
             g = pr.edge_guards(bb)
-            hbf = any(field_names(tm)[-1:] == ['has_been_connected'] and vals == [0] for s, vals, tm in g)
-            lzf = any(field_names(tm)[-1:] == ['is_lazy'] and vals == [0] for s, vals, tm in g)
+            hbf = any(field_names(tm)[-1:] == [F_CONN] and vals == [0] for s, vals, tm in g)
+            lzf = any(field_names(tm)[-1:] == [F_LAZY] and vals == [0] for s, vals, tm in g)
             R.check(hbf and lzf, 'C14.R3', 'eager-first-failure-only', site(pr, bb), 'Err returned only when has_been_connected == false (%r) and is_lazy == false (%r)' % (hbf, lzf))
             pay = [w for w in block_writes(pr, bb, 0)][0][3][0]
             R.check(term_contains(pay, lambda x: is_call(x, name='poll')) and term_contains(pay, lambda x: x and x[0] == 'variant' and x[2] == 'Err'), 'C14.R3', 'returns-the-connect-error', site(pr, bb), 'payload = %s' % show(pay)[:100])
-        est = [(bb, i, st) for bb, i, st in mirlib.assignments(pr, lambda st: st['p']['l'] == 1 and mirlib.place_fields(st['p']) == ['error'])]
+        est = [(bb, i, st) for bb, i, st in mirlib.assignments(pr, lambda st: st['p']['l'] == 1 and mirlib.place_fields(st['p']) == [F_ERR])]
         R.check(len(est) == 1, 'C14.R3', 'error-store-site', site(pr), 'self.error assignments: %d' % len(est))
         for bb, i, st in est:
             v = pr._origin_def(('stmt', bb, i, st['rv']), 0, set())
             R.check(term_contains(v, lambda x: is_call(x, name='poll')) and term_contains(v, lambda x: x and x[0] == 'variant' and x[2] == 'Err'), 'C14.R3', 'stores-the-connect-error', site(pr, bb, i), 'self.error = Some(%s)' % show(v)[:80])
         # the local state written on the failure arms is Idle
-        idle_w = [(bb, i) for bb, i, st in mirlib.assignments(pr, lambda st: st['p']['l'] == SL and not st['p'].get('pr')) if (mirlib.rvalue_variant(pr, st['rv']) or (None, None))[1] == 'Idle']
+        idle_w = [(bb, i) for bb, i, st in mirlib.assignments(pr, lambda st: (st['p']['l'] == SL and not st['p'].get('pr')) or is_self_state(st['p'])) if (mirlib.rvalue_variant(pr, st['rv']) or (None, None))[1] == 'Idle']
         R.check(len(idle_w) >= 2, 'C14.R3', 'failure-arms-reset-to-idle', site(pr), 'state = State::Idle assignments (connect failure + dead connection): %d' % len(idle_w))
         mk = pr.calls(name='make_service')
-        R.check(len(mk) == 1 and any(tm[0] == 'discr' and 'state' in show(tm) and vals == [[d for d, n in vname.items() if n == 'Idle'][0]] for s, vals, tm in pr.edge_guards(mk[0][0])), 'C14.R3', 'reconnect-from-idle', site(pr), 'make_service is called from the Idle arm (a reset state reconnects on the next loop iteration)')
+        R.check(len(mk) == 1 and any(tm[0] == 'discr' and mentions_field(tm, F_STATE) and vals == [[d for d, n in vname.items() if n == 'Idle'][0]] for s, vals, tm in pr.edge_guards(mk[0][0])), 'C14.R3', 'reconnect-from-idle', site(pr), 'make_service is called from the Idle arm (a reset state reconnects on the next loop iteration)')
         R.check(mk and mentions_field(pr.origin(mk[0][1]['args'][1]), 'target'), 'C14.R3', 'reconnect-same-target', site(pr), 'make_service(self.target.clone())')
         nw = tonic.body('reconnect::Reconnect::<M, Target>::new')
         ag = mirlib.aggregates(nw, 'reconnect::Reconnect')
@@ -206,7 +219,7 @@ def run(R):
         if okn:
             f = ag[0][3]['fields']
             ops = ag[0][4]
-            okn = const_val(nw.origin(ops[f.index('has_been_connected')])) is False and show(nw.origin(ops[f.index('is_lazy')])).startswith('arg3') and strip_refs(nw.origin(ops[f.index('state')]))[1].get('variant') == 'Idle' and strip_refs(nw.origin(ops[f.index('error')]))[1].get('variant') == 'None'
+            okn = const_val(nw.origin(ops[f.index(F_CONN)])) is False and (strip_refs(nw.origin(ops[f.index(F_LAZY)]))[0] == 'arg' and nw.ty(strip_refs(nw.origin(ops[f.index(F_LAZY)]))[1]) == 'bool') and strip_refs(nw.origin(ops[f.index(F_STATE)]))[1].get('variant') == 'Idle' and strip_refs(nw.origin(ops[f.index(F_ERR)]))[1].get('variant') == 'None'
         R.check(okn, 'C14.R3', 'new:initial-state', site(nw), 'Reconnect{state: Idle, error: None, has_been_connected: false, is_lazy}')
 
     # ---------------------------------------------------------------- R2 call
@@ -214,7 +227,10 @@ def run(R):
     with R.guard('C14.R2'):
         cl = tonic.body(re.compile(r'reconnect::Reconnect<M, Target> as tower_service::Service<Request>>::call$'))
         R.saw(cl)
-        tk = [(bb, t) for bb, t in cl.calls(name='take') if mentions_field(cl.origin(t['args'][0]), 'error')]
+        ferr_ = [f_['n'] for f_ in tonic.adt('reconnect::Reconnect')['variants'][0]['fields'] if f_['ty'].startswith('std::option::Option<') and 'Error' in f_['ty']]
+        F_ERR2 = ferr_[0] if len(ferr_) == 1 else 'error'
+        # Option::take or mem::take on the error slot
+        tk = [(bb, t) for bb, t in cl.calls(name='take') if mentions_field(cl.origin(t['args'][0]), F_ERR2)]
         R.check(len(tk) == 1, 'C14.R2', 'error-taken', site(cl), 'self.error.take() sites: %d (a clone/peek would replay the failure onto later calls)' % len(tk))
         er = cl.calls(pat='ResponseFuture', name='error')
         R.check(len(er) == 1 and term_contains(cl.origin(er[0][1]['args'][0]), lambda x: is_call(x, name='take')), 'C14.R2', 'error-returned-to-this-call', site(cl), 'ResponseFuture::error(taken error)')
@@ -236,13 +252,16 @@ def run(R):
         for nm, lazy in (('connect', False), ('lazy', True)):
             cands = [b for b in tonic.bodies if b.kind in ('fn', 'coroutine') and re.search(r'connection::Connection::%s(::\{closure#0\})?$' % nm, b.path)]
             hit = [(b, bb, t) for b in cands for bb, t in b.calls(pat='Connection::new')]
-            R.check(len(hit) == 1 and const_val(hit[0][0].origin(hit[0][2]['args'][-1])) is lazy, 'C14.R4', '%s:is_lazy=%s' % (nm, str(lazy).lower()), site(hit[0][0], hit[0][1]) if hit else '', 'Connection::new(.., %s)' % (const_val(hit[0][0].origin(hit[0][2]['args'][-1])) if hit else None))
+            R.check(len(hit) == 1 and const_val(hit[0][0].origin(hit[0][2]['args'][param_of_type(tonic.body('connection::Connection::new'), r'^bool$') - 1])) is lazy, 'C14.R4', '%s:is_lazy=%s' % (nm, str(lazy).lower()), site(hit[0][0], hit[0][1]) if hit else '', 'Connection::new(.., %s)' % (const_val(hit[0][0].origin(hit[0][2]['args'][-1])) if hit else None))
             if nm == 'connect' and hit:
                 ro = [1 for b in cands for bb, t in b.calls(name='ready_oneshot')]
                 R.check(len(ro) == 1, 'C14.R4', 'connect:ready_oneshot', site(hit[0][0]), 'eager connect drives poll_ready once (ready_oneshot sites: %d)' % len(ro))
         cn = tonic.body('connection::Connection::new')
         rc = cn.calls(pat='Reconnect', name='new')
-        R.check(len(rc) == 1 and show(cn.origin(rc[0][1]['args'][2])).startswith('arg'), 'C14.R4', 'is_lazy-plumbed', site(cn), 'Reconnect::new(.., is_lazy) receives the flag: %s' % (show(cn.origin(rc[0][1]['args'][2])) if rc else None))
+        nwb = tonic.body('reconnect::Reconnect::<M, Target>::new')
+        lz_pos = param_of_type(nwb, r'^bool$') - 1
+        cn_lz = param_of_type(cn, r'^bool$')
+        R.check(len(rc) == 1 and strip_refs(cn.origin(rc[0][1]['args'][lz_pos]))[:2] == ('arg', cn_lz), 'C14.R4', 'is_lazy-plumbed', site(cn), 'Reconnect::new(.., is_lazy) receives Connection::new\'s flag: %s' % (show(cn.origin(rc[0][1]['args'][lz_pos])) if rc else None))
 
     # the public entry points: eager connects go through Channel::connect (-> Connection::connect) on every path, lazy ones
     # through Channel::new (-> Connection::lazy); an eager function that builds the channel lazily reports no initial failure
